@@ -22,6 +22,8 @@ def invocations(p, bs, backup, out):
            ('debugfs modifying request without -w', [T['debugfs'], '-n', '-R', 'mkdir /c13x', p]),
            ('dumpe2fs -o superblock', [T['dumpe2fs'], '-o', 'superblock=%d' % backup, '-o', 'blocksize=%d' % bs, p]), ('dumpe2fs -f -g', [T['dumpe2fs'], '-f', '-g', p]), ('dumpe2fs -m', [T['dumpe2fs'], '-m', p]),
            ('e2fsck -nfvtt', [T['e2fsck'], '-n', '-f', '-v', '-t', '-t', p]), ('e2fsck -n -b', [T['e2fsck'], '-n', '-b', str(backup), '-B', str(bs), p]),
+           ('e2fsck -n -E unshare_blocks', [T['e2fsck'], '-n', '-E', 'unshare_blocks', p]), ('e2fsck -n -E unshare_blocks -b', [T['e2fsck'], '-n', '-E', 'unshare_blocks', '-b', str(backup), '-B', str(bs), p]),
+           ('e2fsck -n -E bmap2extent,discard', [T['e2fsck'], '-fn', '-E', 'bmap2extent,discard', p]),
            ('resize2fs -P -f', [T['resize2fs'], '-P', '-f', p]), ('e2freefrag -c', [T['e2freefrag'], '-c', '4', p]),
            ('e2image -ra', [T['e2image'], '-ra', p, out]), ('e2image -Qa', [T['e2image'], '-Qa', p, out]),
            ('mke2fs -n ext4', [T['mke2fs'], '-n', '-F', '-t', 'ext4', '-O', 'quota', '-d', '/nonexistent', p])]
@@ -42,7 +44,7 @@ def pipeline(job):
     st0 = os.stat(p); sig0 = (st0.st_mtime_ns, st0.st_size)
     for label, argv in invocations(p, bs, backup, out):
         if not full and label in ('e2image', 'e2image -Q', 'dumpe2fs -b', 'e2freefrag', 'debugfs -c', 'debugfs -c -n', 'dumpe2fs -o superblock', 'dumpe2fs -f -g', 'dumpe2fs -m', 'e2fsck -nfvtt', 'e2fsck -n -b',
-                                  'resize2fs -P -f', 'e2freefrag -c', 'e2image -ra', 'e2image -Qa', 'mke2fs -n ext4', 'debugfs modifying request without -w'):
+                                  'resize2fs -P -f', 'e2fsck -n -E bmap2extent,discard', 'e2freefrag -c', 'e2image -ra', 'e2image -Qa', 'mke2fs -n ext4', 'debugfs modifying request without -w'):
             continue
         if os.path.exists(out): os.unlink(out)
         _t = time.time()
